@@ -223,13 +223,21 @@ func (s *session) render() []string {
 				qos4(ch.Qos), qos4(ch.ConsumerQos), strings.Join(cons, " "), strings.Join(un, " ")))
 		}
 	}
+	owner := map[uint64]string{} // consumer id -> "conn.chan"
+	for _, cs := range snap.Connections {
+		for _, ch := range cs.Channels {
+			for _, cm := range ch.Consumers {
+				owner[cm.ID] = fmt.Sprintf("%d.%d", cs.ID, ch.ID)
+			}
+		}
+	}
 	for _, q := range snap.Queues {
 		var ready []string
 		for _, m := range q.Ready {
 			ready = append(ready, uidOf(m.MessageID))
 		}
 		out = append(out, fmt.Sprintf("queue %s ready=[%s] len=%d consumers=[%s] active=%s excl=%s ad=%s dur=%s owner=%d cexcl=%s m=%d/%d/%d",
-			q.Name, strings.Join(ready, " "), q.Length, strings.Join(q.Consumers, " "), b2s(q.Active), b2s(q.Exclusive), b2s(q.AutoDelete),
+			q.Name, strings.Join(ready, " "), q.Length, strings.Join(qcons(q.Consumers, q.ConsumerIDs, owner), " "), b2s(q.Active), b2s(q.Exclusive), b2s(q.AutoDelete),
 			b2s(q.Durable), q.ConnID, b2s(q.ConsumeExcl), q.MReady, q.MUnacked, q.MTotal))
 	}
 	for _, e := range snap.Exchanges {
@@ -241,6 +249,21 @@ func (s *session) render() []string {
 			b2s(e.Internal), strings.Join(bs, " ")))
 	}
 	out = append(out, fmt.Sprintf("server m=%d/%d/%d", snap.SrvReady, snap.SrvUnacked, snap.SrvTotal))
+	return out
+}
+
+// qcons renders a queue's consumer list as conn.chan:tag ('?' when the consumer is registered on no live channel)
+func qcons(tags []string, ids []uint64, owner map[uint64]string) []string {
+	out := make([]string, len(tags))
+	for i, t := range tags {
+		o := "?"
+		if i < len(ids) {
+			if v, ok := owner[ids[i]]; ok {
+				o = v
+			}
+		}
+		out[i] = o + ":" + t
+	}
 	return out
 }
 
